@@ -259,7 +259,10 @@ impl<'a> Gen<'a> {
         // an uninitialised plain-old-data field that `Drop` / `unpack` / conversions perform by design)
         let allinit = std::env::var("VERIF_X_ALLINIT").map(|v| v == "1").unwrap_or(false);
         // sizes of every record type
-        let szs: Vec<String> = (0..nv).map(|v| format!("format!(\"{{}}/{{}}\", std::mem::size_of::<{t}>(), std::mem::align_of::<{t}>())", t = self.rty(v))).collect();
+        // (the last entry is `RecordUninitialized<CAP>`, the slot type custom allocators cast to the record variants)
+        let mut tys: Vec<String> = (0..nv).map(|v| self.rty(v)).collect();
+        tys.push(format!("{}::RecordUninitialized<{}>", self.m, self.capx()));
+        let szs: Vec<String> = tys.iter().map(|t| format!("format!(\"{{}}/{{}}\", std::mem::size_of::<{t}>(), std::mem::align_of::<{t}>())", t = t)).collect();
         let code = format!("{{ let s: Vec<String> = vec![{}]; flush(out, format!(\"sizes {{}}\", s.join(\",\"))); }}", szs.join(", "));
         self.op("sizes", &code);
         for v in 0..nv {
@@ -348,7 +351,8 @@ fn build_def(rng: &mut Rng, req: &mut String) -> RecordDefinition<NativeDatumDet
         if rng.chance(1, 4) {
             ctr += 1;
             let name = format!("c{}", ctr);
-            let (ty, size, align) = if rng.chance(1, 2) { ("NoSuchType", 4, 2) } else { ("P8", 8, 4) };
+            // (or right information of a type more aligned than most: the cancelled datum still counts for the record alignment)
+            let (ty, size, align) = match rng.below(3) { 0 => ("NoSuchType", 4, 2), 1 => ("P8", 8, 4), _ => ("P32", 32, 32) };
             let id = b.add_datum_override::<(), _>(name.clone(), DatumDefinitionOverride { type_name: Some(ty.to_string()), size: Some(size), align: Some(align), allow_uninit: Some(false) }).unwrap();
             writeln!(req, "add {} {} {} {} 0 override", name, ty, size, align).unwrap();
             let idn: usize = format!("{}", id).parse().unwrap();
